@@ -52,6 +52,45 @@ def module_names(tree):
     return sorted(set(fns)), sorted(set(consts))
 
 
+def fingerprint(fn):
+    """shape of a function with its own names abstracted away: parameters and locals are numbered in order of first occurrence, the
+    docstring and annotations are dropped; two functions with the same fingerprint differ only in the names they chose"""
+    import hashlib
+    f = copy.deepcopy(fn)
+    f.body = _strip_doc(f.body) or [ast.Pass()]
+    own = {}
+
+    def num(nm):
+        if nm not in own:
+            own[nm] = 'v%d' % len(own)
+        return own[nm]
+    for a in f.args.posonlyargs + f.args.args + f.args.kwonlyargs:
+        a.arg = num(a.arg)
+        a.annotation = None
+    f.returns = None
+    local = {n.id for n in ast.walk(f) if isinstance(n, ast.Name) and isinstance(n.ctx, (ast.Store, ast.Del))}
+    for n in ast.walk(f):
+        if isinstance(n, ast.Name) and (n.id in local or n.id in own):
+            n.id = num(n.id)
+        elif isinstance(n, ast.AnnAssign):
+            n.annotation = ast.Constant(value=None)
+    f.name = '_'
+    f.decorator_list = [d for d in f.decorator_list]
+    return hashlib.sha1(ast.dump(f, annotate_fields=False).encode()).hexdigest()[:16]
+
+
+def module_fingerprints(tree):
+    out = {}
+    for st in tree.body:
+        if isinstance(st, ast.FunctionDef):
+            out[st.name] = fingerprint(st)
+        elif isinstance(st, ast.ClassDef):
+            for x in st.body:
+                if isinstance(x, ast.FunctionDef):
+                    out['%s.%s' % (st.name, x.name)] = fingerprint(x)
+    return out
+
+
 def assigned_names(st):
     out = []
     tg = []
@@ -878,19 +917,72 @@ def subst_new_constants(tree, new_consts):
     return n[0]
 
 
+# ------------------------------------------------------------------ P0 private helpers that were only renamed get their old name back
+def rename_map(trees, baseline):
+    """{new name: old name} for private functions / methods whose old name vanished and whose shape (fingerprint) is unchanged"""
+    out = {}
+    for rel, tree in trees.items():
+        base = (baseline or {}).get(rel)
+        if not base or 'fingerprints' not in base:
+            continue
+        now = module_fingerprints(tree)
+        gone = {q: fp for q, fp in base['fingerprints'].items() if q not in now and q.split('.')[-1].startswith('_')
+                and not q.split('.')[-1].startswith('__')}
+        new = {q: fp for q, fp in now.items() if q not in base['fingerprints'] and q.split('.')[-1].startswith('_')}
+        for q_old, fp in gone.items():
+            cands = [q for q, f2 in new.items() if f2 == fp and q.rsplit('.', 1)[0] == q_old.rsplit('.', 1)[0] or
+                     (f2 == fp and '.' not in q and '.' not in q_old)]
+            if len(cands) == 1:
+                out[cands[0].split('.')[-1]] = q_old.split('.')[-1]
+    # a new name must not be in use for anything else, an old name must be free
+    return out
+
+
+class _Rename(ast.NodeTransformer):
+    def __init__(self, m):
+        self.m = m
+
+    def visit_FunctionDef(self, node):
+        self.generic_visit(node)
+        if node.name in self.m:
+            node.name = self.m[node.name]
+        return node
+
+    def visit_Name(self, node):
+        if node.id in self.m:
+            node.id = self.m[node.id]
+        return node
+
+    def visit_Attribute(self, node):
+        self.generic_visit(node)
+        if node.attr in self.m:
+            node.attr = self.m[node.attr]
+        return node
+
+    def visit_alias(self, node):
+        if node.name in self.m:
+            node.name = self.m[node.name]
+        return node
+
+
 # ------------------------------------------------------------------ driver
 # (name, control-flow form or None, rewrite .get lookups as membership tests)
 VIEWS = [('helpers', (None, False)), ('nested', ('nested', False)), ('flat', ('flat', False)),
          ('lookups', (None, True)), ('lookups+nested', ('nested', True)), ('lookups+flat', ('flat', True))]
 
 
-def normalise_source(src, rel, baseline, cf=None, lookups=True):
+def normalise_source(src, rel, baseline, cf=None, lookups=True, renames=None):
     tree = ast.parse(src)
+    n_ren = 0
+    if renames:
+        before_r = ast.dump(tree)
+        _Rename(renames).visit(tree)
+        n_ren = int(ast.dump(tree) != before_r)
     base = (baseline or {}).get(rel)
     fns, consts = module_names(tree)
     new_fns = set(fns) - set(base['functions']) if base else set(fns)
     new_consts = set(consts) - set(base['constants']) if base else set()
-    changed = 0
+    changed = n_ren
     if new_fns:
         changed += Inliner(tree, new_fns).run()
     if new_consts:
@@ -923,6 +1015,16 @@ def make_view(repo_root, cf=None, lookups=True):
         elif os.path.exists(src):
             os.makedirs(os.path.dirname(dst), exist_ok=True)
             shutil.copy(src, dst)
+    trees = {}
+    for root, _, fs in os.walk(os.path.join(d, 'athlib')):
+        for f in fs:
+            if f.endswith('.py'):
+                p = os.path.join(root, f)
+                try:
+                    trees[os.path.relpath(p, d)] = ast.parse(open(p, encoding='utf-8').read())
+                except SyntaxError:
+                    pass
+    renames = rename_map(trees, baseline)
     for root, _, fs in os.walk(os.path.join(d, 'athlib')):
         for f in fs:
             if not f.endswith('.py'):
@@ -931,7 +1033,7 @@ def make_view(repo_root, cf=None, lookups=True):
             rel = os.path.relpath(p, d)
             try:
                 s = open(p, encoding='utf-8').read()
-                s2 = normalise_source(s, rel, baseline, cf, lookups)
+                s2 = normalise_source(s, rel, baseline, cf, lookups, renames)
             except (SyntaxError, RecursionError, ValueError):
                 continue
             if s2 is not None:
